@@ -103,7 +103,7 @@ def splitSOH : Bytes → Option (Bytes × Bytes)
   | [] => none
   | x :: xs => if x = 1 then some ([], xs) else (splitSOH xs).map fun ar => (x :: ar.1, ar.2)
 
-def wfFrame (m : Bytes) : Bool :=
+def wfShape (m : Bytes) : Bool :=
   match m with
   | 56 :: 61 :: r1 =>
     match splitSOH r1 with
@@ -112,7 +112,7 @@ def wfFrame (m : Bytes) : Bool :=
       | some (ds, r3) =>
         !ds.isEmpty && ds.all isDigit &&
         (let n := digitsVal ds
-         decide (0 < n) && decide (m.length < 9223372036854775807) &&
+         decide (0 < n) &&
          (let body := r3.take n
           let tr := r3.drop n
           body.getLast? == some 1 &&
@@ -125,6 +125,9 @@ def wfFrame (m : Bytes) : Bool :=
       | none => false
     | _ => false
   | _ => false
+
+/-- the length bound only says that the frame's offsets fit Go's `int` -/
+def wfFrame (m : Bytes) : Bool := decide (m.length < 9223372036854775807) && wfShape m
 
 /-- no BeginString marker -/
 def noBegin (j : Bytes) : Bool := (indexOf dBegin j).isNone
